@@ -406,7 +406,10 @@ def _persist_worker(job):
     from parglare.tables import create_table
     from parglare.tables.persist import table_from_serializable, table_to_serializable
     from lib import impl
-    name, text, text2, fps = job
+    import copy
+    import random
+    name, text, text2, fps, seed = job
+    mr = random.Random(seed)
     nm = Names()
     out = {"name": name, "text": text, "text2": text2, "cases": [], "skip": None}
     try:
@@ -448,6 +451,36 @@ def _persist_worker(job):
                         c["bytes_again"] = "exc:" + impl.exc_kind(e)
             except BaseException as e:  # noqa
                 c[key] = [impl.exc_kind(e)]
+        # malformed stream: a complete JSON document that is not what save_table wrote
+        mser = copy.deepcopy(ser)
+        kind = mr.choice(["drop_state", "dup_cell", "bad_prod", "bad_term", "bad_goto", "bad_symbol",
+                          "dup_state"])
+        stt = mr.choice(mser)
+        if kind == "drop_state":
+            mser.pop()
+        elif kind == "dup_state":
+            mser.append(copy.deepcopy(stt))
+        elif kind == "dup_cell" and stt["actions"]:
+            cell = copy.deepcopy(mr.choice(stt["actions"]))
+            cell[1] = cell[1] + cell[1]
+            stt["actions"].append(cell)
+        elif kind == "bad_prod":
+            for a in [a for st_ in mser for cl in st_["actions"] for a in cl[1] if "prod_id" in a][:1]:
+                a["prod_id"] = 999
+        elif kind == "bad_term" and stt["actions"]:
+            mr.choice(stt["actions"])[0] = "no.such"
+        elif kind == "bad_goto" and stt["gotos"]:
+            mr.choice(stt["gotos"])[0] = "no.such"
+        elif kind == "bad_symbol":
+            stt["symbol"] = "no.such"
+        try:
+            with impl.time_limit(20), impl.quiet():
+                t3 = table_from_serializable(json.loads(json.dumps(mser, sort_keys=True)),
+                                             Grammar.from_string(text))
+            ml = ["ok", dump_ptable(t3, nm), dump_marks(t3, nm)]
+        except BaseException as e:  # noqa
+            ml = [impl.exc_kind(e)]
+        c["mut"] = {"kind": kind, "ser": ser_to_sx(mser, nm), "load": ml}
         out["cases"].append(c)
     out["names"] = nm.strs
     return out
@@ -766,7 +799,7 @@ def run(ctx):
         t2 = rng.choice(texts)
         fps = [(1, True, True, True), (1, False, False, False)]
         fps.append((rng.choice([0, 1]), rng.random() < 0.5, rng.random() < 0.5, rng.random() < 0.5))
-        pjobs.append(("p%d" % i, t, t2, fps))
+        pjobs.append(("p%d" % i, t, t2, fps, rng.randrange(1 << 30)))
     # prefix jobs
     xjobs = []
     ptexts = [EXPR, "S: 'a' S | 'a';", "S: A A; A: 'a' | 'a' 'a';"]
@@ -819,6 +852,8 @@ def run(ctx):
                 continue
             mcases.append((120, [r["g"], c["table"], r["g2"]]))
             meta.append(("persist", r, c))
+            mcases.append((120, [r["g"], c["mut"]["ser"], r["g2"]]))
+            meta.append(("mut", r, c))
     t0 = time.time()
     outs = common.model_run(mcases)
     tm["model_s"] = round(time.time() - t0, 1)
@@ -833,10 +868,18 @@ def run(ctx):
                       {"log": xlog}, no_input=True)
 
     pst = {"tables": 0, "wf": 0, "reload_ok": 0, "mismatch_loads": {}, "with_conflicts": 0,
-           "with_dynamic": 0}
+           "with_dynamic": 0, "malformed_loads": {}}
     for (kind, a, b), o in zip(meta, outs):
         if kind == "hist":
             eval_history(ctx, st, a, b, o, samples, distinct)
+        elif kind == "mut":
+            k2 = b["mut"]["kind"] + ":" + b["mut"]["load"][0]
+            pst["malformed_loads"][k2] = pst["malformed_loads"].get(k2, 0) + 1
+            if not load_agrees(o[2], b["mut"]["load"]):
+                ctx.violation("table_from_serializable on a malformed document (%s) differs from the model: impl %s"
+                              % (b["mut"]["kind"], b["mut"]["load"][0]),
+                              {"grammar": a["text"], "mutation": b["mut"]["kind"], "model": o[2],
+                               "impl": b["mut"]["load"]}, no_input=True, key="from_ser-malformed")
         else:
             eval_persist(ctx, pst, a, b, o, distinct)
     xst = eval_prefixes(ctx, xjobs, xres)
@@ -1073,6 +1116,14 @@ def kf_report(ctx, mech, sc, i, what):
                       % (KF_TEXT[mech], json.dumps(sc["files"]), json.dumps(sc["history"][:i + 1]), what))
 
 
+def load_agrees(m, il):
+    """model from_ser result (sx) vs impl table_from_serializable result"""
+    if m[0] == 0:
+        return il[0] == "ok" and il[1] == m[1] and m[2][0] == 0 and \
+            canon_marks(m[2][1]) == canon_marks(il[2])
+    return il[0] == MODEL_EXC.get(m[1], "?")
+
+
 def eval_persist(ctx, pst, r, c, o, distinct):
     wf, mser, mload, mmarks, mload2, mser2 = o
     pst["tables"] += 1
@@ -1096,11 +1147,7 @@ def eval_persist(ctx, pst, r, c, o, distinct):
                       dict(rep, model=mmarks, impl=c["marks"]), no_input=True, key="marks")
     for key, m in (("load", mload), ("load2", mload2)):
         il = c[key]
-        if m[0] == 0:
-            ok = il[0] == "ok" and il[1] == m[1] and m[2][0] == 0 and \
-                canon_marks(m[2][1]) == canon_marks(il[2])
-        else:
-            ok = il[0] == MODEL_EXC.get(m[1], "?")
+        ok = load_agrees(m, il)
         if key == "load2":
             k2 = il[0]
             pst["mismatch_loads"][k2] = pst["mismatch_loads"].get(k2, 0) + 1
